@@ -289,7 +289,8 @@ async fn body(seed: u64, threaded: bool) -> Outcome {
             last = l;
         }
     } else {
-        tokio::time::sleep(Duration::from_millis(n * 6 + 1000)).await;
+        // virtual time is free: long enough for the slowest actor (5 ms per message) carrying several subscriptions
+        tokio::time::sleep(Duration::from_millis(n * 60 + 5000)).await;
     }
     let lg = log.lock().unwrap().clone();
     v.extend(evaluate(&facts, &lg, &bursts, n, !threaded));
